@@ -598,6 +598,303 @@ theorem Inv.runs_le {α : Type} {f : Nat → α} {key : Nat → Nat} {s : St α}
 
 end Keyed
 
+/-! ## Stream (the lock spans the draining of the reader) -/
+namespace Stream
+
+def inCS : PC → Bool
+  | .look | .drain | .store | .unlock => true
+  | _ => false
+
+structure Inv (W : List Nat) (s : St) : Prop where
+  cs : ∀ t, inCS (s.pc t) = true ↔ s.mu = some t
+  hit : ∀ x, s.cache = some x → x = W ∧ s.runs = 1
+  free : s.mu = none → s.cache = none → s.src.flatten = W ∧ s.runs = 0
+  fresh : ∀ t, (s.pc t = .lock ∨ s.pc t = .look) → s.acc t = []
+  look : ∀ t, s.pc t = .look → s.cache = none → s.src.flatten = W ∧ s.runs = 0
+  drain : ∀ t, s.pc t = .drain → s.cache = none ∧ s.acc t ++ s.src.flatten = W ∧ s.runs = 1
+  store : ∀ t, s.pc t = .store → s.cache = none ∧ s.acc t = W ∧ s.runs = 1
+  unlock : ∀ t, s.pc t = .unlock → s.tmp t = some W ∧ s.cache = some W
+  fin : ∀ t, s.pc t = .fin → s.res t = some W
+  norelock : ∀ t, s.pc t ≠ .relock
+
+theorem inv_init (chunks : List (List Nat)) : Inv chunks.flatten (init chunks) := by
+  constructor <;> simp [init, inCS]
+
+theorem Inv.excl {W : List Nat} {s : St} (h : Inv W s) {t u : Nat}
+    (ht : inCS (s.pc t) = true) (hu : inCS (s.pc u) = true) : u = t := by
+  have a := (h.cs t).1 ht
+  have b := (h.cs u).1 hu
+  rw [a] at b
+  exact (Option.some.inj b).symm
+
+theorem inv_step (W : List Nat) (s : St) (t : Nat) (h : Inv W s) : Inv W (step true s t) := by
+  unfold step
+  split
+  next hp =>  -- lock
+    split
+    next hm =>
+      have nocs : ∀ u, inCS (s.pc u) = false := by
+        intro u
+        cases hc : inCS (s.pc u) with
+        | false => rfl
+        | true => have := (h.cs u).1 hc; rw [hm] at this; cases this
+      constructor
+      · intro u
+        by_cases hu : u = t
+        · subst hu; simp [inCS]
+        · simp [hu, nocs u]; intro hh; exact hu hh.symm
+      · exact h.hit
+      · intro hh; cases hh
+      · intro u; by_cases hu : u = t
+        · subst hu; simp; exact h.fresh u (Or.inl hp)
+        · simp [hu]; exact h.fresh u
+      · intro u; by_cases hu : u = t
+        · subst hu; intro _ hc; exact h.free hm hc
+        · simp [hu]; exact h.look u
+      · intro u; by_cases hu : u = t
+        · subst hu; simp
+        · simp [hu]; exact h.drain u
+      · intro u; by_cases hu : u = t
+        · subst hu; simp
+        · simp [hu]; exact h.store u
+      · intro u; by_cases hu : u = t
+        · subst hu; simp
+        · simp [hu]; exact h.unlock u
+      · intro u; by_cases hu : u = t
+        · subst hu; simp
+        · simp [hu]; exact h.fin u
+      · intro u; by_cases hu : u = t
+        · subst hu; simp
+        · simp [hu]; exact h.norelock u
+    next => exact h
+  next hp =>  -- look
+    have hcs : s.mu = some t := (h.cs t).1 (by simp [hp, inCS])
+    have others : ∀ u, u ≠ t → inCS (s.pc u) = false := by
+      intro u hu
+      cases hc : inCS (s.pc u) with
+      | false => rfl
+      | true => exact absurd (h.excl (by simp [hp, inCS]) hc) hu
+    split
+    next x hx =>  -- cached
+      have hxW := (h.hit x hx).1
+      constructor
+      · intro u
+        by_cases hu : u = t
+        · subst hu; simp [inCS, hcs]
+        · simp [hu]; exact h.cs u
+      · exact h.hit
+      · exact h.free
+      · intro u; by_cases hu : u = t
+        · subst hu; simp
+        · simp [hu]; exact h.fresh u
+      · intro u; by_cases hu : u = t
+        · subst hu; simp
+        · simp [hu]; exact h.look u
+      · intro u; by_cases hu : u = t
+        · subst hu; simp
+        · simp [hu]; exact h.drain u
+      · intro u; by_cases hu : u = t
+        · subst hu; simp
+        · simp [hu]; exact h.store u
+      · intro u; by_cases hu : u = t
+        · subst hu; simp [hx, hxW]
+        · simp [hu]; exact h.unlock u
+      · intro u; by_cases hu : u = t
+        · subst hu; simp
+        · simp [hu]; exact h.fin u
+      · intro u; by_cases hu : u = t
+        · subst hu; simp
+        · simp [hu]; exact h.norelock u
+    next hx =>  -- miss: start draining, the lock stays held
+      obtain ⟨hsrc, hr0⟩ := h.look t hp hx
+      have hacc := h.fresh t (Or.inr hp)
+      constructor
+      · intro u
+        by_cases hu : u = t
+        · subst hu; simp [inCS, hcs]
+        · simp [hu]; exact h.cs u
+      · intro x hxx; simp at hxx; rw [hx] at hxx; cases hxx
+      · intro hm; simp [hcs] at hm
+      · intro u; by_cases hu : u = t
+        · subst hu; simp
+        · simp [hu]; exact h.fresh u
+      · intro u; by_cases hu : u = t
+        · subst hu; simp
+        · simp [hu]; intro hpu; have := others u hu; simp [hpu, inCS] at this
+      · intro u; by_cases hu : u = t
+        · subst hu; simp [hx, hacc, hsrc, hr0]
+        · simp [hu]; intro hpu; have := others u hu; simp [hpu, inCS] at this
+      · intro u; by_cases hu : u = t
+        · subst hu; simp
+        · simp [hu]; intro hpu; have := others u hu; simp [hpu, inCS] at this
+      · intro u; by_cases hu : u = t
+        · subst hu; simp
+        · simp [hu]; intro hpu; have := others u hu; simp [hpu, inCS] at this
+      · intro u; by_cases hu : u = t
+        · subst hu; simp
+        · simp [hu]; exact h.fin u
+      · intro u; by_cases hu : u = t
+        · subst hu; simp
+        · simp [hu]; exact h.norelock u
+  next hp =>  -- drain
+    have hcs : s.mu = some t := (h.cs t).1 (by simp [hp, inCS])
+    obtain ⟨hc, hW, hr⟩ := h.drain t hp
+    have others : ∀ u, u ≠ t → inCS (s.pc u) = false := by
+      intro u hu
+      cases hc : inCS (s.pc u) with
+      | false => rfl
+      | true => exact absurd (h.excl (by simp [hp, inCS]) hc) hu
+    split
+    next c rest hsrc =>  -- one Read
+      rw [hsrc] at hW
+      constructor
+      · exact h.cs
+      · exact h.hit
+      · intro hm; simp [hcs] at hm
+      · intro u; by_cases hu : u = t
+        · subst hu; intro hh; rcases hh with hh | hh <;> rw [hp] at hh <;> cases hh
+        · simp [hu]; exact h.fresh u
+      · intro u hpu; by_cases hu : u = t
+        · subst hu; rw [hp] at hpu; cases hpu
+        · have hq : s.pc u = .look := hpu
+          have := others u hu; simp [hq, inCS] at this
+      · intro u hpu; by_cases hu : u = t
+        · subst hu; simp [hc, hr]; simpa [List.append_assoc] using hW
+        · have hq : s.pc u = .drain := hpu
+          have := others u hu; simp [hq, inCS] at this
+      · intro u hpu; by_cases hu : u = t
+        · subst hu; rw [hp] at hpu; cases hpu
+        · have hq : s.pc u = .store := hpu
+          have := others u hu; simp [hq, inCS] at this
+      · exact h.unlock
+      · exact h.fin
+      · exact h.norelock
+    next hsrc =>  -- EOF
+      rw [hsrc] at hW
+      constructor
+      · intro u
+        by_cases hu : u = t
+        · subst hu; simp [inCS, hcs]
+        · simp [hu]; exact h.cs u
+      · exact h.hit
+      · exact h.free
+      · intro u; by_cases hu : u = t
+        · subst hu; simp
+        · simp [hu]; exact h.fresh u
+      · intro u; by_cases hu : u = t
+        · subst hu; simp
+        · simp [hu]; exact h.look u
+      · intro u; by_cases hu : u = t
+        · subst hu; simp
+        · simp [hu]; exact h.drain u
+      · intro u; by_cases hu : u = t
+        · subst hu; simp [hc, hr]; simpa using hW
+        · simp [hu]; exact h.store u
+      · intro u; by_cases hu : u = t
+        · subst hu; simp
+        · simp [hu]; exact h.unlock u
+      · intro u; by_cases hu : u = t
+        · subst hu; simp
+        · simp [hu]; exact h.fin u
+      · intro u; by_cases hu : u = t
+        · subst hu; simp
+        · simp [hu]; exact h.norelock u
+  next hp => exact absurd hp (h.norelock t)  -- relock: not reachable while the lock spans the computation
+  next hp =>  -- store
+    have hcs : s.mu = some t := (h.cs t).1 (by simp [hp, inCS])
+    obtain ⟨hc, hW, hr⟩ := h.store t hp
+    have others : ∀ u, u ≠ t → inCS (s.pc u) = false := by
+      intro u hu
+      cases hc : inCS (s.pc u) with
+      | false => rfl
+      | true => exact absurd (h.excl (by simp [hp, inCS]) hc) hu
+    constructor
+    · intro u
+      by_cases hu : u = t
+      · subst hu; simp [inCS, hcs]
+      · simp [hu]; exact h.cs u
+    · intro x hx; simp [hc] at hx; exact ⟨by rw [← hx, hW], hr⟩
+    · intro hm; simp [hcs] at hm
+    · intro u; by_cases hu : u = t
+      · subst hu; simp
+      · simp [hu]; exact h.fresh u
+    · intro u; by_cases hu : u = t
+      · subst hu; simp
+      · simp [hu]; intro hpu; have := others u hu; simp [hpu, inCS] at this
+    · intro u; by_cases hu : u = t
+      · subst hu; simp
+      · simp [hu]; intro hpu; have := others u hu; simp [hpu, inCS] at this
+    · intro u; by_cases hu : u = t
+      · subst hu; simp
+      · simp [hu]; intro hpu; have := others u hu; simp [hpu, inCS] at this
+    · intro u; by_cases hu : u = t
+      · subst hu; simp [hc, hW]
+      · simp [hu]; intro hpu; have := others u hu; simp [hpu, inCS] at this
+    · intro u; by_cases hu : u = t
+      · subst hu; simp
+      · simp [hu]; exact h.fin u
+    · intro u; by_cases hu : u = t
+      · subst hu; simp
+      · simp [hu]; exact h.norelock u
+  next hp =>  -- unlock
+    have hcs : s.mu = some t := (h.cs t).1 (by simp [hp, inCS])
+    obtain ⟨htmp, hcache⟩ := h.unlock t hp
+    have others : ∀ u, u ≠ t → inCS (s.pc u) = false := by
+      intro u hu
+      cases hc : inCS (s.pc u) with
+      | false => rfl
+      | true => exact absurd (h.excl (by simp [hp, inCS]) hc) hu
+    constructor
+    · intro u
+      by_cases hu : u = t
+      · subst hu; simp [inCS]
+      · simp [hu, others u hu]
+    · exact h.hit
+    · intro _ hc; simp [hcache] at hc
+    · intro u; by_cases hu : u = t
+      · subst hu; simp
+      · simp [hu]; exact h.fresh u
+    · intro u; by_cases hu : u = t
+      · subst hu; simp
+      · simp [hu]; exact h.look u
+    · intro u; by_cases hu : u = t
+      · subst hu; simp
+      · simp [hu]; exact h.drain u
+    · intro u; by_cases hu : u = t
+      · subst hu; simp
+      · simp [hu]; exact h.store u
+    · intro u; by_cases hu : u = t
+      · subst hu; simp
+      · simp [hu]; exact h.unlock u
+    · intro u; by_cases hu : u = t
+      · subst hu; simp [htmp]
+      · simp [hu]; exact h.fin u
+    · intro u; by_cases hu : u = t
+      · subst hu; simp
+      · simp [hu]; exact h.norelock u
+  next => exact h
+
+theorem inv_run (W : List Nat) (sched : List Nat) (s : St) (h : Inv W s) : Inv W (run true sched s) := by
+  induction sched generalizing s with
+  | nil => exact h
+  | cons t r ih => exact ih _ (inv_step W s t h)
+
+theorem Inv.runs_le {W : List Nat} {s : St} (h : Inv W s) : s.runs ≤ 1 := by
+  cases hc : s.cache with
+  | some x => have := (h.hit x hc).2; omega
+  | none =>
+    cases hm : s.mu with
+    | none => have := (h.free hm hc).2; omega
+    | some t =>
+      have hcs := (h.cs t).2 hm
+      cases hp : s.pc t <;> simp [hp, inCS] at hcs
+      · have := (h.look t hp hc).2; omega
+      · have := (h.drain t hp).2.2; omega
+      · have := (h.store t hp).2.2; omega
+      · have := (h.unlock t hp).2; rw [hc] at this; cases this
+
+end Stream
+
 /-! ## GetOrAdd -/
 namespace GetOrAdd
 
